@@ -33,7 +33,9 @@ fn observe(set: &HpoSet, obs: &Value, at: &str, d: &mut Vec<String>) {
     if by_get != want {
         d.push(format!("{at}: get(0..) gives {:?}, expected {:?}", by_get, want));
     }
-    for id in [1u32, 2, 3, 4, 5, 6, 118, 7] {
+    let mut probe: Vec<u32> = vec![1, 2, 3, 4, 5, 6, 118, 7];
+    probe.extend(want.iter().flat_map(|x| [*x, x.wrapping_sub(1), x + 1]));
+    for id in probe {
         if set.contains(&id.into()) != want.contains(&id) {
             d.push(format!("{at}: contains({id}) = {}, members are {:?}", set.contains(&id.into()), want));
         }
